@@ -9,10 +9,13 @@ Proved here (machine logic, all index values, all certificates, both certificate
 * key orientation: a Result produced by *reading* the last message has (EKey, DKey) = (cs1, cs2), one
   produced by *writing* it has (cs2, cs1) — so an initiator and a responder of one IX session hold
   crosswise equal, distinct cipher states;
-* index pairing over an honest IX session: Initiate → responder ProcessPacket → initiator
-  ProcessPacket, where each side's noise read returns the plaintext the other side's Machine
-  marshalled (through the C08 codec): remote index = the other's local index on both sides, both
-  message counts are 2, and the local indexes are those of the allocators (non-zero by contract).
+* index placement (`marshalOutgoing`) and index extraction (`processPayload`) for every value, and from
+  them `indexes_pair_partial`: over message 1 and message 2 of one session, where each side's read
+  returns the indexes the other side wrote (transport hypotheses `t1`, `t2`), the responder's remote
+  index is the initiator's local index and vice versa, both non-zero; the responder echoes the
+  initiator's index; local indexes are the allocators' values;
+* `message_index_reported`: a Result reports the noise message index at completion (2 on both sides
+  of IX: checked per run by the `pair` op).
 
 PARTIAL — assumed (oracle laws, not proved): flynn/noise delivers the written plaintext to the peer's
 read, returns (cs1, cs2) with cs1 = initiator→responder on both sides of one session, and cs1 ≠ cs2 as
@@ -20,7 +23,6 @@ keys; AEAD: only the matching key opens (checked per run on real keys by the `pa
 `newConnectionStateFromResult` (replay-window seeding) is not modelled.
 -/
 import Nebula.Lemmas.MachineTrace
-import Nebula.Props.C08
 
 namespace Nebula.Props.C06
 open Nebula.Wire Nebula.Machine Nebula.Spec.Handshake Nebula.Payload
